@@ -111,7 +111,7 @@ def compatible_bms(name):
         return [None, "BalancedIncrementalQuantileFilter"]
     if name == "StreamDensityBasedAL":
         return [None, "DensityBasedSplitBudgetManager", "FixedUncertaintyBudgetManager", "VariableUncertaintyBudgetManager",
-                "RandomBudgetManager", "SplitBudgetManager"]
+                "RandomBudgetManager", "SplitBudgetManager", "BalancedIncrementalQuantileFilter"]
     if name == "CognitiveDualQueryStrategy":
         return [None] + ZLIOBAITE_BMS[1:]
     return [None] + ZLIOBAITE_BMS
